@@ -39,6 +39,7 @@ def run(ctx: Ctx):
             step = mi
     if step is None:
         raise AnchorError(f"{DEC}.Decompiler.__exps_of_section", "symbolic step not found")
+    ctx.section(check_members, ctx, m)
     handled = check_step(ctx, step)
     check_table(ctx, m, step, handled)
     check_decompile(ctx, dc.methods.get("decompile"), step)
@@ -51,6 +52,17 @@ def gate_classes(ctx: Ctx) -> Dict[str, ClassInfo]:
         if isinstance(v, ast.Name) and v.id in gm.classes:
             out[k] = gm.classes[v.id]
     return out
+
+
+def check_members(ctx: Ctx, m):
+    """the property's own definition: a classical section is a run of X / CX / CCX / MCX (and the identity)"""
+    tbl = m.globals_assigned.get("ZB_GATES")
+    if not isinstance(tbl, ast.List):
+        raise AnchorError(f"{DEC}.ZB_GATES", "table not found or not a list literal")
+    members = [(dotted(e) or norm(e)).split(".")[-1] for e in tbl.elts]
+    allowed = {"X", "CX", "CCX", "MCX", "Toffoli", "CNOT", "I"}
+    extra = sorted(set(members) - allowed)
+    ctx.check(not extra, "DP-TABLE", None, "classical sections are runs of X / CX / CCX / MCX only", str(sorted(members)), f"ZB_GATES admits {extra}: by the property's own definition every other gate (swap, phase, Hadamard ...) interrupts a classical run, so reported sections are no longer the maximal runs and their index ranges cover foreign gates", construct=f"{DEC}.ZB_GATES")
 
 
 def check_table(ctx: Ctx, m, step: FuncInfo, handled: Dict[str, str]):
